@@ -512,4 +512,32 @@ def report (P rem : Rat) (failed : Option Rat) : Report :=
     { succeeded := mgrPartialSucceeded (mgrDistributed P rem) f, failed := mgrPartialFailed f
       excess := mgrPartialExcess rem }
 
+/-! ## A sequence of calls on ONE long-lived `BatteryDistributionAlgorithm` (as `BatteryManager` uses it)
+
+The object holds the constructor constants only (`Extracted.Dist.instanceAttrs`), and nothing in the class can carry
+state from one call to the next (`Extracted.Dist.perCallState = []`, re-established from the source on every run:
+`__init__` assigns only from its parameters, no method writes to `self`, no globals, no caches).  So a call leaves the
+object as it is and its result is `distribute` of the arguments of THAT call. -/
+
+/-- What an instance remembers: `self._distributor_exponent`. -/
+structure Instance where
+  exp : Nat
+deriving Repr, DecidableEq
+
+/-- The arguments of one `distribute_power(power, components)` call. -/
+structure Call where
+  power : Rat
+  groups : List Group
+deriving Repr, DecidableEq
+
+def Instance.input (a : Instance) (c : Call) : Input := { power := c.power, exp := a.exp, groups := c.groups }
+
+/-- One call: (the instance afterwards, the result). -/
+def Instance.call (a : Instance) (c : Call) : Instance × Option Out := (a, distribute (a.input c))
+
+/-- The results of a sequence of calls on the same instance, in order. -/
+def Instance.run (a : Instance) : List Call → List (Option Out)
+  | [] => []
+  | c :: cs => (a.call c).2 :: (a.call c).1.run cs
+
 end Dist
